@@ -13,8 +13,15 @@ fn rec(k: &mut i64, val: &str) -> Term {
     tag("rec", vec![ti(*k), ts(val)])
 }
 
+fn qrec(k: &mut i64, val: &str) -> Term {
+    *k += 1;
+    tag("qrec", vec![ti(*k), ts(val)])
+}
+
 fn leaf(rng: &mut Rng, k: &mut i64) -> Term {
-    match rng.below(12) {
+    match rng.below(14) {
+        12 => qrec(k, ["0", "1", "7", "abc"][rng.below(4)]),
+        13 => tag("qunset", vec![ti(rng.below(3) as i64)]),
         0 | 1 | 2 => rec(k, ["0", "1", "2", "7"][rng.below(4)]),
         3 => rec(k, ["0.0", "2.5", "abc", ""][rng.below(4)]),
         4 => tag("unset", vec![ti(rng.below(3) as i64)]),
@@ -84,10 +91,12 @@ pub fn gen(tier: &str, seed: u64) -> Gen {
     let mut n = 0;
     for op in &["&&", "||"] {
         for lv in &["0", "1", "0.0", "2.5", "abc"] {
-            for kind in 0..8 {
+            for kind in 0..10 {
                 let mut k = 0i64;
                 let left = rec(&mut k, lv);
                 let right = match kind {
+                    8 => qrec(&mut k, "1"),
+                    9 => bin("eq", tag("qunset", vec![ti(0)]), strq("x")),
                     0 => rec(&mut k, "1"),
                     1 => tag("unset", vec![ti(0)]),
                     2 => tag("badcmd", vec![]),
@@ -103,10 +112,12 @@ pub fn gen(tier: &str, seed: u64) -> Gen {
         }
     }
     for cv in &["0", "1", "2.5", "0.0", "abc"] {
-        for kind in 0..5 {
+        for kind in 0..7 {
             let mut k = 0i64;
             let c = rec(&mut k, cv);
             let mut branch = |k: &mut i64| match kind {
+                5 => qrec(k, "5"),
+                6 => tag("qunset", vec![ti(0)]),
                 0 => rec(k, "5"),
                 1 => tag("unset", vec![ti(0)]),
                 2 => tag("badcmd", vec![]),
